@@ -208,9 +208,16 @@ pub fn check_sums_f<F: Fl>(c: &SumCase) -> CheckResult {
     }
     // the same positive data scaled by a huge / tiny power of two: both means scale exactly
     if hg && !F::IS32 {
-        for e in [400i32, -400, 700, -700] {
-            let sc = 2f64.powi(e);
-            let scaled: Vec<F> = pos.iter().map(|x| F::from64(x.to64() * sc)).collect();
+        // e = 0 stands for the MIXED variant: every element gets its own power of two in
+        // 2^-500..2^500 (derived from its bits), so huge and tiny elements alternate
+        for e in [400i32, -400, 700, -700, 0] {
+            let scaled: Vec<F> = pos
+                .iter()
+                .map(|x| {
+                    let ee = if e == 0 { ((x.to64().to_bits() >> 7) % 1001) as i32 - 500 } else { e };
+                    F::from64(x.to64() * 2f64.powi(ee))
+                })
+                .collect();
             if scaled.iter().any(|x| !x.is_finite() || *x <= F::zero() || x.to64() < 1e-300) {
                 continue;
             }
